@@ -94,7 +94,7 @@ func nil2(fn *ssa.Function) *core.Prog { return &core.Prog{Fset: fn.Prog.Fset} }
 func c11(c *Ctx) {
 	p, r := c.P, c.R
 	r.Rule("R-C11.1", "EncryptMessage and decryptWithKey configure the AEAD with (key ID, shared key) taken as a pair from one key-producer call, and pass AAD = the key ID exactly when it is non-empty - the same table on both sides")
-	r.Rule("R-C11.2", "in DecryptMessage the previous-key attempt is reachable only from the failure edge of the current-key attempt and only with a successfully produced, non-nil previous key; nil is returned only after one attempt succeeded; the result message is written only by proto.Unmarshal after a successful Decrypt")
+	r.Rule("R-C11.2", "in DecryptMessage every attempt decrypts the given ciphertext; a successful attempt is final (only the success return is reachable from its success edge, no further attempt); both the current and the recorded previous key are tried; nil is returned only after one attempt succeeded; the result message is written only by proto.Unmarshal of the decrypted plaintext after a successful Decrypt")
 	r.Rule("R-C11.3", "the two X25519EncryptionKey implementations call types.X25519EncryptionKey with (own private, own type, peer public, peer type) and derive the key ID from CertificatePublicKeyPkix; the two SetPreviousEncryptionKey functions record (old key ID, old own private, old peer public) in the same roles and the Previous… methods read them back in that order; types.X25519EncryptionKey uses its parameters in those roles")
 	r.Rule("R-C11.4", "no crash: every panic site reachable from DecryptMessage is discharged; the unchecked Ciphertext[:12] of aead.Wrapper.Decrypt is a length precondition that decryptWithKey checks before the call")
 	r.NotDecided = append(r.NotDecided, "round-trip equality of messages", "AEAD authenticity", "X25519 commutativity")
@@ -148,13 +148,15 @@ func c11(c *Ctx) {
 	}
 	ki, kk := idxOf(kidP), idxOf(keyP)
 	calls := callsTo(decM, decK)
-	if len(calls) != 2 {
-		r.Unk("R-C11.2", "nodeenrollment.DecryptMessage attempts", p.Pos(decM.Pos()), fmt.Sprintf("%d decryptWithKey calls, want 2", len(calls)))
+	if len(calls) == 0 {
+		r.Unk("R-C11.2", "nodeenrollment.DecryptMessage attempts", p.Pos(decM.Pos()), "no decryptWithKey call")
 		return
 	}
 	keySrc := paramRoot(decM.Params[2])
-	var first, second *ssa.Call
+	nCur, nPrev := 0, 0
+	var oks []core.Guard
 	for i, cc := range calls {
+		cc := cc
 		a, ai := core.CallResult(core.Strip(cc.Call.Args[ki]))
 		b, bi := core.CallResult(core.Strip(cc.Call.Args[kk]))
 		okc := a != nil && a == b && ai == 0 && bi == 1 && a.Common().IsInvoke() && core.Strip(a.Common().Value) == core.Strip(keySrc)
@@ -163,36 +165,36 @@ func c11(c *Ctx) {
 			meth = a.Common().Method.Name()
 		}
 		r.Check(okc && (meth == "X25519EncryptionKey" || meth == "PreviousX25519EncryptionKey"), "R-C11.1", fmt.Sprintf("nodeenrollment.DecryptMessage attempt#%d key pair", i), p.Pos(cc.Pos()),
-			"(key ID, key) = keySource."+meth+"()", "key ID and key of a decrypt attempt do not come from one producer call on the key source")
+			"(key ID, key) = keySource."+meth+"()", "the key ID and the key of a decrypt attempt do not come from one producer call on the key source (a message is accepted under a key ID the receiver did not derive for that key)")
 		if meth == "X25519EncryptionKey" {
-			first = cc
+			nCur++
 		} else if meth == "PreviousX25519EncryptionKey" {
-			second = cc
+			nPrev++
 		}
 		ct := core.Strip(cc.Call.Args[2])
 		r.Check(ct == ssa.Value(decM.Params[1]), "R-C11.2", fmt.Sprintf("nodeenrollment.DecryptMessage attempt#%d ciphertext", i), p.Pos(cc.Pos()), "the ciphertext parameter", "an attempt decrypts something other than the given ciphertext")
-	}
-	if first == nil || second == nil {
-		r.Bad("R-C11.2", "nodeenrollment.DecryptMessage attempts", p.Pos(decM.Pos()), "expected one attempt with the current key and one with the previous key")
-		return
-	}
-	gFirstOK := core.ErrNil("current-key attempt", func(x *ssa.Call) bool { return x == first })
-	gFirstFail := core.Guard{Name: "current-key attempt failed", Match: func(cond ssa.Value) (int, bool) { s, ok := gFirstOK.Match(cond); return 1 - s, ok }}
-	res := core.CutReach(p, decM, gFirstFail, second.Block())
-	r.CutOb(p, "R-C11.2", "nodeenrollment.DecryptMessage fallback only after failure", p.Pos(second.Pos()), res, gFirstFail)
-	prev, _ := core.CallResult(core.Strip(second.Call.Args[kk]))
-	if prev != nil {
-		pk := extractOf(prev, 1)
-		gs := []core.Guard{
-			core.ErrNil("PreviousX25519EncryptionKey", func(x *ssa.Call) bool { return x == prev }),
-			core.NilTest("previous key non-nil", func(pp core.Path) bool { return pp.Root == pk && len(pp.Fields) == 0 }, false),
+		gOK := core.ErrNil(fmt.Sprintf("attempt#%d", i), func(x *ssa.Call) bool { return x == cc })
+		oks = append(oks, gOK)
+		// after a successful attempt only success returns are reachable
+		if okT, succ, _, _ := errTestEdges(cc); okT {
+			bad := ""
+			for x := range reachFrom(succ, nil) {
+				if ret, ok := x.Instrs[len(x.Instrs)-1].(*ssa.Return); ok && core.ReturnErrKind(ret, 0) == core.ErrNonNil {
+					bad = p.Pos(ret.Pos())
+				}
+				for _, in := range x.Instrs {
+					if c2, ok := in.(*ssa.Call); ok && c2 != cc && c2.Common().StaticCallee() == decK {
+						bad = "another attempt at " + p.Pos(c2.Pos())
+					}
+				}
+			}
+			r.Check(bad == "", "R-C11.2", fmt.Sprintf("nodeenrollment.DecryptMessage attempt#%d success is final", i), p.Pos(cc.Pos()), "a successful attempt leads only to the success return", "after a successful attempt the function can still fail or overwrite the result: "+bad)
+		} else {
+			r.Bad("R-C11.2", fmt.Sprintf("nodeenrollment.DecryptMessage attempt#%d success is final", i), p.Pos(cc.Pos()), "the error of a decrypt attempt is not tested")
 		}
-		for _, g := range gs {
-			res := core.CutReach(p, decM, g, second.Block())
-			r.CutOb(p, "R-C11.2", "nodeenrollment.DecryptMessage fallback needs "+g.Name, p.Pos(second.Pos()), res, g)
-		}
 	}
-	gAny := core.AnyOf("one attempt succeeded", gFirstOK, core.ErrNil("previous-key attempt", func(x *ssa.Call) bool { return x == second }))
+	r.Check(nCur >= 1 && nPrev >= 1, "R-C11.2", "nodeenrollment.DecryptMessage tries current and previous key", p.Pos(decM.Pos()), fmt.Sprintf("%d current-key and %d previous-key attempts", nCur, nPrev), "the current key or the recorded previous key is never tried")
+	gAny := core.AnyOf("one attempt succeeded", oks...)
 	for i, ret := range core.SuccessReturns(decM) {
 		res := core.CutReach(p, decM, gAny, ret.Block())
 		r.CutOb(p, "R-C11.2", fmt.Sprintf("nodeenrollment.DecryptMessage success-return#%d", i), p.Pos(ret.Pos()), res, gAny)
